@@ -18,6 +18,9 @@ import (
 
 type Directory struct {
 	sync.RWMutex
+	// structure serialises the operations that add or remove directories and year files
+	// (AddTimeBucket, RemoveTimeBucket, GetSubDirectoryAndAddFile). Used on the root directory only.
+	structure sync.Mutex
 
 	// itemName is the instance of the category. e.g. itemName: "AAPL", category: "Symbol"
 	itemName string
@@ -176,6 +179,8 @@ func writeCategoryNameFile(catName, dirName string) error {
 // AddTimeBucket adds a (possibly) new data item to a rootpath. Takes an existing catalog directory and
 // adds the new data item to that data directory. This is used only for a root category directory.
 func (d *Directory) AddTimeBucket(tbk *io.TimeBucketKey, f *io.TimeBucketInfo) (err error) {
+	d.structure.Lock()
+	defer d.structure.Unlock()
 	d.Lock()
 	defer d.Unlock()
 
@@ -248,6 +253,10 @@ func (d *Directory) RemoveTimeBucket(tbk *io.TimeBucketKey) (err error) {
 	if d == nil {
 		return errors.New(io.GetCallerFileContext(0) + ": Directory called from is nil")
 	}
+	// a concurrent AddTimeBucket replaces the symbol's subtree: without this, a removal walking the
+	// old subtree deletes directories (and catalog entries) the new subtree has just received
+	d.structure.Lock()
+	defer d.structure.Unlock()
 
 	datakeySplit := tbk.GetItems()
 
@@ -446,6 +455,8 @@ func (d *Directory) GetPath() string {
 }
 
 func (d *Directory) GetSubDirectoryAndAddFile(fullFilePath string, year int16) (*io.TimeBucketInfo, error) {
+	d.structure.Lock()
+	defer d.structure.Unlock()
 	d.Lock()
 	defer d.Unlock()
 	dirPath := path.Dir(fullFilePath)
@@ -586,14 +597,19 @@ func ListTimeBucketKeyNames(d *Directory) []string {
 		if symbolDir == nil {
 			continue
 		}
+		// each level has its own lock: a concurrent Destroy edits these maps under it
+		symbolDir.RLock()
 		for timeframe, timeframeDir := range symbolDir.subDirs {
 			if timeframeDir == nil {
 				continue
 			}
+			timeframeDir.RLock()
 			for attributeGroup := range timeframeDir.subDirs {
 				tbkMap[fmt.Sprintf("%s/%s/%s", symbol, timeframe, attributeGroup)] = struct{}{}
 			}
+			timeframeDir.RUnlock()
 		}
+		symbolDir.RUnlock()
 	}
 
 	// convert Map keys to a string slice
